@@ -79,7 +79,8 @@ def crash_dataset(rng):
     ds = gen.gen_dataset(rng, {"nbackends": [3], "nhosts": [2, 3], "nsvcs": [1, 2]})
     # make sure host comments / downtimes (no service reference) exist, and flavours differ
     for i, b in enumerate(ds["backends"]):
-        b["flags"] = [["Naemon", "HasLastUpdateColumn"], [], ["Shinken"]][i % 3]
+        # the flavour (flags and the optional columns that go with them) is the generator's choice: overriding the flags
+        # afterwards would leave columns in the data that the importer rejects for that flavour
         # value shapes a backend may send: fewer custom variable values than names, and the other way round
         for tname in ("hosts", "services"):
             t = b["tables"][tname]
